@@ -202,6 +202,16 @@ TA repeat_pair_smaller(Rng& r, TA& bigger) {
 	return a;
 }
 
+// A drawn bijection on the symbol names a..h applied to both automata of a pair.  The loaders register symbols in
+// the order of the (sorted) Ops line, and the BDD encodings explore symbols in the order of their codes, so the
+// names decide the order in which the rules of one state are visited: another dimension of the "schedule".
+void permute_syms(Rng& r, TA& A, TA& B) {
+	std::vector<std::string> names = {"a", "b", "c", "d", "e", "f", "g", "h"}, img = names;
+	for (size_t i = img.size(); i > 1; --i) std::swap(img[i - 1], img[r.below(i)]);
+	std::map<std::string, std::string> m; for (size_t i = 0; i < names.size(); ++i) m[names[i]] = img[i];
+	A = mdl::rename_syms(A, m); B = mdl::rename_syms(B, m);
+}
+
 FA gen_fa(Rng& r, const std::vector<std::string>& syms, int max_states, bool sparse) {
 	FA a; int n = r.chance(1, 30) ? 0 : r.range(1, max_states);
 	std::vector<long> st;
@@ -250,6 +260,26 @@ void gen_fa_incl_pair(Rng& r, const std::vector<std::string>& sa, const std::vec
 		A = gen_fa(r, sa, n, r.chance(1, 4));
 		B = r.chance(1, 2) ? derive_fa(r, sb, A, int(r.below(5))) : gen_fa(r, sb, n, r.chance(1, 4));
 	}
+}
+
+// A pair of word automata embedded as monadic tree automata: an edge q -s-> q' becomes the unary rule s(q)->q',
+// a start state gets a leaf rule, final states stay final.  Dense nondeterministic bigger automata over four to six
+// unary symbols give the downward algorithms what random ranked pools rarely do: long cycles through several
+// symbols, one pair (state, macro-state) reached again below itself and once more from outside the cycle, and
+// alternatives (several rules with one symbol into one state) that let a refuted sub-goal be tolerated.
+void monadic_pair(Rng& r, TA& A, TA& B) {
+	static const char* U[] = {"a", "b", "c", "d", "e", "f"};
+	int k = r.range(2, 6); std::vector<std::string> syms(U, U + k);
+	FA fa, fb; gen_fa_incl_pair(r, syms, syms, r.range(3, 6), fa, fb);
+	bool two_leaves = r.chance(1, 3);
+	auto conv = [&](const FA& f, long base) {
+		TA t;
+		for (const Edge& e : f.edges) { Rule x; x.sym = e.sym; x.parent = base + e.dst; x.ch = {base + e.src}; t.rules.insert(x); }
+		for (long q : f.starts) { Rule x; x.sym = (two_leaves && (q & 1)) ? "h" : "g"; x.parent = base + q; t.rules.insert(x); }
+		for (long q : f.finals) t.finals.insert(base + q);
+		return t;
+	};
+	A = conv(fa, 0); B = conv(fb, r.chance(1, 2) ? 0 : 10);
 }
 
 vsim::Env gen_env(Rng& r, bool allow_never) {
